@@ -179,7 +179,7 @@ def case_of(ev):
     if op == "pair":
         return {"op": "pair", "A": ev["A"], "B": ev["B"], "osz": ev["osz"]}
     if op == "snap":
-        return {"op": "snap", "adds": ev["adds"], "adds2": ev["adds2"],
+        return {"op": "snap", "adds": ev["adds"], "adds2": ev["adds2"], **({"base": ev["base"]} if "base" in ev else {}),
                 "probe": [[p["ty"], p["i"]] for p in ev.get("probes", [])],
                 "copies": sorted({c["src"] for c in ev.get("copies", [])} | {r["src"] for r in ev.get("rec", [])})}
     c = {"op": "parse", "kind": ev["kind"], "w": ev["w"], "adds2": ev["adds2"], "osz": ev.get("osz", [])}
